@@ -350,9 +350,13 @@ func (run *PropRun) report(w *World, t0 time.Time) int {
 		"wall_s":      round2(time.Since(t0).Seconds()),
 		"violations":  nviol,
 	}
-	os.MkdirAll("/verif/evidence", 0o755)
+	evDir := "/verif/evidence"
+	if d := os.Getenv("MQVC_EVIDENCE_DIR"); d != "" {
+		evDir = d // runs against deliberately modified trees must not overwrite the committed evidence
+	}
+	os.MkdirAll(evDir, 0o755)
 	data, _ := json.MarshalIndent(ev, "", " ")
-	os.WriteFile(filepath.Join("/verif/evidence", id+".json"), data, 0o644)
+	os.WriteFile(filepath.Join(evDir, id+".json"), data, 0o644)
 	fmt.Printf("%s %s: %d obligations, %d discharged, %d violations, %.1fs\n", id, run.Tier, total, discharged, nviol, time.Since(t0).Seconds())
 	return exit
 }
